@@ -195,6 +195,12 @@ func runC08Panic(c *Ctx) {
 				c.Except(p.Pos(), fn, construct, why)
 				return
 			}
+			if rf := rootFunc(f); isNewHelper(rf) {
+				if _, _, _, ok := tagAssertSummary(rf); ok {
+					c.Except(p.Pos(), fn, construct, "a tag assertion introduced since the baseline (panics unless the geometry's tag equals the requested type): "+reviewedPanics["geom.(Geometry).check"])
+					return
+				}
+			}
 			c.Bad(p.Pos(), fn, construct, "an explicit panic is reachable from the decoders and is neither the default of an exhaustive type/enum dispatch nor a reviewed invariant: if its assumption fails on some input (e.g. because a floating-point predicate is not symmetric), decoding crashes instead of returning an error")
 		})
 	}
